@@ -74,7 +74,9 @@ func c11WideSub() *engine.Sub {
 		Name:   "wide-connectives",
 		Repeat: true,
 		Rule:   "and / or with n operands (n on both sides of 8, 16, 32, 64, 128, 256) of which exactly one decides - false under and, true under or - and all others are neutral comparisons; the deciding operand is of each of 8 kinds (comparison, like, any, all, not(like), or containing a like, and containing an any) and sits at the first, the last and every position around the word sizes; as a top-level statement, under not(not()), and as the statement of an any: Match = PartialMatch = the deciding operand's value, and - differentially - the same with the neutral operands being of another kind (likes instead of comparisons); built with the constructors and through FromIPLD; non-trivial = all",
-		Bound:  func(string) string { return "2 connectives x 13 widths x up to 20 positions x 8 kinds x 3 nestings x 2 neutral kinds x 2 constructions" },
+		Bound: func(string) string {
+			return "2 connectives x 13 widths x up to 20 positions x 8 kinds x 3 nestings x 2 neutral kinds x 2 constructions"
+		},
 		Gen: func(tier string, emit func(any) bool) {
 			for _, op := range []string{"and", "or"} {
 				for _, n := range []int{2, 7, 8, 9, 16, 17, 32, 33, 63, 64, 65, 66, 128, 129, 257} {
